@@ -7,7 +7,7 @@ import json, os, random, shutil, subprocess
 import derive_gen as G
 
 MINW = {"u8": 1, "u16": 2, "u32": 4, "u64": 8, "u128": 16, "bool": 1, "Vec<u8>": 1, "Option<u16>": 1, "String": 1, "(u8, u16)": 3,
-        "[u8; 3]": 3, "Vec<u32>": 1, "Box<u16>": 2, "()": 0}
+        "[u8; 3]": 3, "Vec<u32>": 1, "Box<u16>": 2, "()": 0, "OneTag": 1}
 
 CARGO_TOML = """[package]
 name = "gen05"
@@ -100,7 +100,21 @@ impl<'a, T: Encode> Encode for PlainRef<'a, T> {
 impl<'a, T> From<&'a T> for PlainRef<'a, T> { fn from(x: &'a T) -> Self { PlainRef(x) } }
 impl<'a, T: Encode + 'a> parity_scale_codec::EncodeAsRef<'a, T> for Plain<T> { type RefType = PlainRef<'a, T>; }
 macro_rules! plain_into { ($($t:ty),*) => {$( impl From<Plain<$t>> for $t { fn from(p: Plain<$t>) -> $t { p.0 } } )*}; }
-plain_into!(u8, u16, u32, u64, u128);'''
+plain_into!(u8, u16, u32, u64, u128);
+/// zero-sized in memory, one byte on the wire
+#[derive(Encode, Decode, DecodeWithMemTracking, Debug, PartialEq, Clone, Default)]
+pub enum OneTag {
+	#[default]
+	#[codec(index = 7)]
+	Only,
+}
+impl Uni for OneTag {
+	fn desc() -> String { "(TEnum (VsCons 7 TUnit VsNil))".to_string() }
+	fn gen(_: &mut Rng, _: u32) -> Self { OneTag::Only }
+	fn val(&self) -> String { "(VVar 0 VUnit)".to_string() }
+	fn same(&self, o: &Self) -> bool { self == o }
+	fn min_wire() -> usize { 1 }
+}'''
 
 
 def rust_default(ty):
@@ -179,6 +193,9 @@ def definitions(seed, thorough):
         dict(kind="struct", name="FxAllSk", shape="named", fields=[f("u8", "skip"), f("u16", "skip")], transparent=False),
         dict(kind="struct", name="FxTr", shape="tuple", fields=[f("u32")], transparent=True),
         dict(kind="struct", name="FxTrC", shape="tuple", fields=[f("u64", "compact")], transparent=True),
+        # a transparent newtype around a type that is zero-sized in memory but not on the wire
+        dict(kind="struct", name="FxTrU", shape="tuple", fields=[{"ty": ("OneTag", "(TEnum (VsCons 7 TUnit VsNil))", None), "attr": "plain", "conflict": None}], transparent=True),
+        dict(kind="struct", name="FxTagged", shape="named", fields=[f("u16"), {"ty": ("OneTag", "(TEnum (VsCons 7 TUnit VsNil))", None), "attr": "plain", "conflict": None}, f("u8")], transparent=False),
         dict(kind="enum", name="FxAllSkipped", variants=[unit("A", skip=True), unit("B", skip=True)]),
         dict(kind="enum", name="FxOneSkipped", variants=[unit("A", skip=True), unit("B"), unit("C", index=0)] if False else [unit("A", skip=True), unit("B"), unit("C", index=5)]),
         dict(kind="enum", name="FxEmpty", variants=[]),
@@ -295,7 +312,7 @@ def run(g, cfg, pid, tier, seed, work, problems):
         T += render(d) + [""]
     nonempty = [d for d in defs if not (d["kind"] == "enum" and not [v for v in d["variants"] if not v["skip"]])]
     names = [d["name"] for d in nonempty]
-    extra = ["Vec<FxSingleSk2>", "[FxSingleSk2; 3]", "Box<FxTr>", "[FxTr; 2]", "Box<FxTrC>", "[FxTrC; 3]", "Vec<FxSingle>", "Option<FxSkipMid>", "Vec<%s>" % names[0], "Box<%s>" % names[1]]
+    extra = ["Box<FxTrU>", "[FxTrU; 2]", "(Box<FxTrU>, u8)", "Vec<FxTagged>", "Vec<FxSingleSk2>", "[FxSingleSk2; 3]", "Box<FxTr>", "[FxTr; 2]", "Box<FxTrC>", "[FxTrC; 3]", "Vec<FxSingle>", "Option<FxSkipMid>", "Vec<%s>" % names[0], "Box<%s>" % names[1]]
     T.append("macro_rules! for_gen_types { ($f:ident, $cx:expr) => { $( $f::<$t>($cx, stringify!($t)); )* }; }")
     T[-1] = "macro_rules! for_gen_types { ($f:ident, $cx:expr) => { %s }; }" % " ".join("$f::<%s>($cx, \"%s\");" % (n, n) for n in names + extra)
     T.append("pub(crate) use for_gen_types;")
@@ -338,7 +355,7 @@ def run(g, cfg, pid, tier, seed, work, problems):
         stats = json.load(open(os.path.join(work, "stats.json")))
     except Exception:
         stats = dict(evaluations=0, distinct_nontrivial=0)
-    stats["rule"] = ("seeded type definitions over the attribute grammar (unit / tuple / named structs; enums with unit, tuple and named variants; fields plain / compact / encoded_as the compact type / encoded_as a non-compact wrapper / skip over 14 field types; attributes on a variant as separate attributes in both orders; variants with index attributes, explicit discriminants (also on variants with fields), index literals in decimal / hex / binary / octal / suffixed spelling, both at once, implicit positions, skip) plus fixed shapes (single non-skipped field, all fields skipped, repr(transparent) with and without compact, all variants skipped, empty enum, skipped variant in the middle), also nested in Vec / Box / arrays / Option; per type: seeded values -> encode vs the model's encoding of the descriptor derived from the definition, decode of the encoding + suffix, three mutations, and every possible first byte; every value in a skipped variant is encoded in a child process (must print no bytes and exit). non-trivial = non-empty input")
+    stats["rule"] = ("seeded type definitions over the attribute grammar (unit / tuple / named structs; enums with unit, tuple and named variants; fields plain / compact / encoded_as the compact type / encoded_as a non-compact wrapper / skip over 14 field types; attributes on a variant as separate attributes in both orders; variants with index attributes, explicit discriminants (also on variants with fields), index literals in decimal / hex / binary / octal / suffixed spelling, both at once, implicit positions, skip) plus fixed shapes (single non-skipped field, all fields skipped, repr(transparent) with and without compact and around a zero-sized type with a wire byte, all variants skipped, empty enum, skipped variant in the middle), also nested in Vec / Box / arrays / Option; per type: seeded values -> encode vs the model's encoding of the descriptor derived from the definition, decode of the encoding + suffix, three mutations, and every possible first byte; every value in a skipped variant is encoded in a child process (must print no bytes and exit). non-trivial = non-empty input")
     stats["oracle_checks"] = int(stats.get("oracle_checks", 0)) + len(pr)
     stats.setdefault("distribution", {})["definitions"] = len(defs)
     stats["distribution"]["skipped_variant_probes"] = len(pr)
